@@ -45,6 +45,7 @@ DOC_ORDER = {
     'ARK324L2SAERK': 3, 'ARK324L2SAESDIRK': 3, 'ARK32': 3, 'ARK2': 2, 'ARK3': 3,
     'RKN': 4, 'Velocity_Verlet': 2,
 }
+DT = 0.5                         # step size of all runs (not 1, so that a missing/extra factor dt is visible); lambda = z / DT
 TOL_TABLE = F(1, 2 ** 40)        # |c_j - 1/j!| for table coefficients (observed <= 2^-47, see evidence)
 IMPLICIT_QD = ['IE', 'LU', 'MIN-SR-S', 'MIN-SR-NS', 'MIN-SR-FLEX', 'IEpar', 'Qpar', 'MIN', 'MIN3', 'PIC', 'LU2', 'VDHS', 'TRAP', 'GS']
 EXPLICIT_QD = ['EE', 'PIC']
@@ -351,7 +352,7 @@ def _run(ck):
     def controller_run(desc):
         c = controller_nonMPI(num_procs=1, controller_params={'logger_level': 40}, description=desc)
         P = c.MS[0].levels[0].prob
-        uend, _ = c.run(u0=P.u_exact(0), t0=0.0, Tend=1.0)
+        uend, _ = c.run(u0=P.u_exact(0), t0=0.0, Tend=DT)
         return np.asarray(uend), c.MS[0].levels[0].sweep
 
     NF = 64
@@ -415,10 +416,10 @@ def _run(ck):
         last = bool(coll.right_is_node and not conf['upd'])
         dmax = max([1.0] + [abs(float(QD[i][i])) for QD in QDs for i in range(M)])
         r = 0.3 / dmax
-        lam = r * np.exp(2j * np.pi * np.arange(NF) / NF)
+        lam = r * np.exp(2j * np.pi * np.arange(NF) / NF) / DT
         runs = []
         for k in range(1, K + 1):
-            lp = {'dt': 1.0, 'restol': -1}
+            lp = {'dt': DT, 'restol': -1}
             stp = {'maxiter': k}
             if conf['nsweeps_mode']:
                 lp['nsweeps'] = k
@@ -605,17 +606,17 @@ def _run(ck):
                 for u0 in ((1.0, 0.0), (0.0, 1.0)):
                     pos, vel = [], []
                     for mu_ in mus:
-                        desc = dict(problem_class=ho, problem_params={'k': float(-mu_), 'mu': 0.0, 'u0': u0}, sweeper_class=cls, sweeper_params={},
-                                    level_params={'dt': 1.0, 'restol': -1}, step_params={'maxiter': 1})
+                        desc = dict(problem_class=ho, problem_params={'k': float(-mu_) / DT ** 2, 'mu': 0.0, 'u0': u0}, sweeper_class=cls, sweeper_params={},
+                                    level_params={'dt': DT, 'restol': -1}, step_params={'maxiter': 1})
                         c = controller_nonMPI(num_procs=1, controller_params={'logger_level': 40}, description=desc)
                         P = c.MS[0].levels[0].prob
                         me = P.dtype_u(P.init)
                         me.pos[:] = u0[0]
-                        me.vel[:] = u0[1]
-                        uend, _ = c.run(u0=me, t0=0.0, Tend=1.0)
+                        me.vel[:] = u0[1] / DT            # responses are taken in the variables (x, dt * v)
+                        uend, _ = c.run(u0=me, t0=0.0, Tend=DT)
                         ck.traces += 1
                         pos.append(float(uend.pos[0]))
-                        vel.append(float(uend.vel[0]))
+                        vel.append(float(uend.vel[0]) * DT)
                     src = 'pos' if u0[0] else 'vel'
                     resp['pos<-' + src] = np.polynomial.polynomial.polyfit(mus, pos, s_ + 1)
                     resp['vel<-' + src] = np.polynomial.polynomial.polyfit(mus, vel, s_ + 1)
@@ -719,13 +720,13 @@ def _run(ck):
             if d['imex']:
                 N2 = 32
                 th = 2 * np.pi * np.arange(N2) / N2
-                zI = (r * np.exp(1j * th))[:, None] * np.ones(N2)[None, :]
-                zE = np.ones(N2)[:, None] * (r * np.exp(1j * th))[None, :]
+                zI = (r * np.exp(1j * th))[:, None] * np.ones(N2)[None, :] / DT
+                zE = np.ones(N2)[:, None] * (r * np.exp(1j * th))[None, :] / DT
                 desc = dict(problem_class=imex_dahlquist, problem_params={'lamI': zI.ravel(), 'lamE': zE.ravel(), 'u0': 1.0})
             else:
-                lam = r * np.exp(2j * np.pi * np.arange(NF) / NF)
+                lam = r * np.exp(2j * np.pi * np.arange(NF) / NF) / DT
                 desc = dict(problem_class=testequation0d, problem_params={'lambdas': lam, 'u0': 1.0})
-            desc.update(sweeper_class=c, sweeper_params={}, level_params={'dt': 1.0, 'restol': -1}, step_params={'maxiter': 1})
+            desc.update(sweeper_class=c, sweeper_params={}, level_params={'dt': DT, 'restol': -1}, step_params={'maxiter': 1})
             uend, sw = controller_run(desc)
             sec = np.asarray(sw.u_secondary) if d['emb'] else None
         except Exception as e:
